@@ -435,4 +435,4 @@ def st_program(ctx: Ctx):
     )
 
 
-PARTS = [Part("programs", check_program, strategy=st_program, quick=800, thorough=40000)]
+PARTS = [Part("programs", check_program, strategy=st_program, quick=1600, thorough=48000)]
